@@ -323,6 +323,7 @@ def shards(tier):
         out.append(("addr_sweep", a0, a0 + 16))
     out += P.partner_shards(PARTNERS)
     out.append(("declare-between-reads",))
+    out.append(("user-layouts",))
     return out
 
 
@@ -418,7 +419,78 @@ def run_declare_between_reads(res):
     sample(res, {"declare_between_reads": n})
 
 
+def run_user_layouts(res):
+    """User-declared values whose locations are 'in the order required by the value' but not contiguous-ascending (LSB first,
+    with a gap), declared with and without the optional type_, at implemented locations, at a hole and beyond the last
+    accessible location: single reads, read_all and from_list agree with the bytes at the DECLARED addresses in declared order."""
+    from dali.memory.location import MemoryBank, MemoryLocation, MemoryType, NumericValue
+    from dali.exceptions import MemoryLocationNotImplemented
+    n = 0
+    for fam in ("gear", "device"):
+        for with_type in (True, False):
+            bank = MemoryBank(12, 0x40)
+
+            def loc(a):
+                return MemoryLocation(a, type_=MemoryType.ROM) if with_type else MemoryLocation(address=a)
+            decls = {"Contig": (0x10, 0x11), "LsbFirst": (0x13, 0x12), "Split": (0x20, 0x22), "Reversed3": (0x2A, 0x29, 0x28), "AtHole": (0x18,),
+                     "HoleInside": (0x1A, 0x1B), "Beyond": (0x50,), "Straddles": (0x40, 0x41)}
+            classes = {nm: type(nm, (NumericValue,), {"bank": bank, "locations": tuple(loc(a) for a in addrs)}) for nm, addrs in decls.items()}
+
+            def mkharness():
+                h = MemHarness(fam, "BANK_0", "rnd1", None, [], None, ticks=False, faults=False, sa=9)
+                cells = [0x40, 0x00] + [(11 * i + 5) & 0xFF for i in range(2, 256)]
+                cells[0x18] = cells[0x1B] = None
+                ub = G.MemBank(12, cells, writable=set(), lockable=set(), has_lock=False)
+                h.unit.banks = {12: ub}
+                h.bank = ub
+                return h
+            cells = mkharness().bank.cells
+            want = {}
+            for nm, addrs in decls.items():
+                ok = all(a <= 0x40 and cells[a] is not None for a in addrs)
+                want[nm] = int.from_bytes(bytes(cells[a] for a in addrs), "big") if ok else None
+            case = {"t": "user-layouts", "fam": fam, "with_type": with_type}
+            for nm, cls in classes.items():
+                h = mkharness()
+                kind, val, _ = G.run_sequence(cls.read(h.addr()), h, 200)
+                n += 1
+                if want[nm] is None:
+                    if kind != "raise" or not isinstance(val, MemoryLocationNotImplemented):
+                        add_violation(res, f"C09:user-layout:not-implemented:{nm}", f"{case}: {nm} at {[hex(a) for a in decls[nm]]} (holes at 0x18 and 0x1b, last location 0x40): "
+                                      f"{kind} {val!r}, expected MemoryLocationNotImplemented", case)
+                elif kind != "return" or val != want[nm]:
+                    add_violation(res, f"C09:user-layout:read:{nm}", f"{case}: {nm} at {[hex(a) for a in decls[nm]]}: {kind} {val!r}, the bytes there say {want[nm]}", case)
+                # the dump path: a list of the bank's bytes
+                lst = [c if i <= 0x40 else None for i, c in enumerate(cells)][:255]
+                try:
+                    got = ("return", cls.from_list(lst))
+                except Exception as e:
+                    got = ("raise", e)
+                if want[nm] is None:
+                    if got[0] != "raise" or not isinstance(got[1], MemoryLocationNotImplemented):
+                        add_violation(res, f"C09:user-layout:from_list-not-implemented:{nm}", f"{case}: {nm}.from_list: {got}", case)
+                elif got != ("return", want[nm]):
+                    add_violation(res, f"C09:user-layout:from_list:{nm}", f"{case}: {nm}.from_list at {[hex(a) for a in decls[nm]]}: {got}, the bytes there say {want[nm]}", case)
+            h = mkharness()
+            kind, val, _ = G.run_sequence(bank.read_all(h.addr()), h, 900)
+            n += 1
+            exp = {nm: v for nm, v in want.items() if v is not None}
+            if kind != "return":
+                add_violation(res, "C09:user-layout:read_all-raised", f"{case}: read_all {kind} {val!r}", case)
+            else:
+                got = {c.__name__: v for c, v in val.items() if c.__name__ in decls}
+                if got != exp:
+                    add_violation(res, "C09:user-layout:read_all", f"{case}: read_all reports {got}, expected {exp}", case)
+            res["distinct"].add(("user-layouts", fam, with_type))
+    res["evaluations"] += n
+    sample(res, {"user_layout_reads": n})
+
+
 def run_shard(shard):
+    if shard[0] == "user-layouts":
+        res = new_result()
+        run_user_layouts(res)
+        return res
     if shard[0] == "declare-between-reads":
         res = new_result()
         run_declare_between_reads(res)
@@ -513,6 +585,8 @@ def run_shard(shard):
 
 
 def replay(case):
+    if case.get("t") == "user-layouts":
+        return run_shard(("user-layouts",))["violations"]
     if case.get("t") == "declare-between-reads":
         return run_shard(("declare-between-reads",))["violations"]
     from dalimc.core.explorer import Chooser
